@@ -302,7 +302,9 @@ def real_run(env, case):
     out["setters"] = setter_obs
     data = None if case["data"] is None else bytes.fromhex(case["data"])
     if case["ds_attr"]:
-        setattr(prim, case["ds_attr"], None if data is None else BytesIO(data))
+        from harness.dimse_common import stream_of
+
+        setattr(prim, case["ds_attr"], None if data is None else stream_of(data, len(case["raw"])))
     out["stored"] = {kw: to_val(getattr(prim, kw)) for kw in row["attrs"]}
     out["prim"] = prim
     if any(v[0] == "other" for v in out["stored"].values() if isinstance(v, list)):
